@@ -651,8 +651,10 @@ pub fn run(tier: &str, seed: u64, dir: &str) {
     let mut sink = Sink::new(dir);
     let thorough = tier == "thorough";
     let depth = if thorough { 4 } else { 3 };
-    let chips: Vec<&str> = if thorough { vec!["1262/d", "1261/t1", "1276", "1272/x"] } else { vec!["1262/d", "1276"] };
+    // quick: the TCXO board (SX1261) and the SX1272 run the fault-free sequences only
+    let chips: Vec<&str> = vec!["1262/d", "1261/t1", "1276", "1272/x"];
     for chip in &chips {
+        let plain_only = !thorough && (*chip == "1261/t1" || *chip == "1272/x");
         let is126 = is_126(parse_chip(chip).unwrap().variant);
         // all sequences up to `depth`
         let mut seqs: Vec<Vec<&str>> = vec![vec![]];
@@ -678,7 +680,7 @@ pub fn run(tier: &str, seed: u64, dir: &str) {
             emit2(&mut sink, &op, &ans, &format!("{}-plain-{}", if is126 { "sx126x" } else { "sx127x" }, classify(&ans)));
             // depth-4 sequences (thorough): faults / drops / outcomes only on a seeded fortieth
             let full = s.len() <= 3 || rng.chance(1, 40);
-            if !full || obs.len() < s.len() {
+            if plain_only || !full || obs.len() < s.len() {
                 continue;
             }
             // a fault at every I/O step of every call of the sequence; a drop at every await_irq
@@ -745,7 +747,7 @@ pub fn run(tier: &str, seed: u64, dir: &str) {
             let op = line("adp", chip, &base);
             let ans = obs.iter().map(|o| o.line.clone()).collect::<Vec<_>>().join(" ; ");
             sink.case(&op, &ans, &format!("adapter-plain-{}", classify(&ans)), true);
-            if obs.len() < sq.len() {
+            if plain_only || obs.len() < sq.len() {
                 continue;
             }
             for (j, o) in obs.iter().enumerate() {
@@ -783,7 +785,7 @@ pub fn run(tier: &str, seed: u64, dir: &str) {
     }
     sink.finish(
         dir,
-        "every sequence of API calls up to the tier's depth (3 quick / 4 thorough) over the 16-call alphabet {init, sleep warm/cold, prepare_for_tx, tx, prepare_for_rx single/continuous/duty-cycle, start_rx, complete_rx, rx, rx_switch_channel, listen, prepare_for_cad, cad, set_lora_sync_word} on the real LoRa<Sx126x<Sx1262>> and LoRa<Sx127x<Sx1276>> (thorough: + Sx1261 with TCXO, Sx1272 with PA_BOOST) over the fake chips; for each sequence (depth 4: a seeded fortieth): an I/O fault at every SPI / busy / IRQ / RF-switch / reset step of the calls, a future dropped at every await_irq, 11 chip interrupt outcomes (done, timeout, CRC error, header error, spurious, preamble first, CAD done/detected) on every call that reads the IRQ status, and every fault position inside the error path such an outcome triggers. Compared per call: result, the full I/O transcript (hashed in digest lines) and verif_state() = (radio_mode, cold_start, calibrate_image); the Lean side also evaluates I1-I5 on the run, and `inv` lines evaluate the same invariants on the real driver's own transcript with an independent Rust tracker (expected verdict: ok). `adp` lines: every sequence up to depth 3 of the LoRaWAN adapter's calls (LorawanRadio tx / setup_rx single+continuous / rx_single / rx_continuous / low_power) with the same faults, drops and interrupt outcomes. Distinct = distinct op lines; every line is a concrete scenario.",
+        "every sequence of API calls up to the tier's depth (3 quick / 4 thorough) over the 16-call alphabet {init, sleep warm/cold, prepare_for_tx, tx, prepare_for_rx single/continuous/duty-cycle, start_rx, complete_rx, rx, rx_switch_channel, listen, prepare_for_cad, cad, set_lora_sync_word} on the real LoRa<Sx126x<Sx1262>> and LoRa<Sx127x<Sx1276>> and on Sx1261 with TCXO / Sx1272 with PA_BOOST (in the quick tier these two run the fault-free sequences only) over the fake chips; for each sequence (depth 4: a seeded fortieth): an I/O fault at every SPI / busy / IRQ / RF-switch / reset step of the calls, a future dropped at every await_irq, 11 chip interrupt outcomes (done, timeout, CRC error, header error, spurious, preamble first, CAD done/detected) on every call that reads the IRQ status, and every fault position inside the error path such an outcome triggers. Compared per call: result, the full I/O transcript (hashed in digest lines) and verif_state() = (radio_mode, cold_start, calibrate_image); the Lean side also evaluates I1-I5 on the run, and `inv` lines evaluate the same invariants on the real driver's own transcript with an independent Rust tracker (expected verdict: ok). `adp` lines: every sequence up to depth 3 of the LoRaWAN adapter's calls (LorawanRadio tx / setup_rx single+continuous / rx_single / rx_continuous / low_power) with the same faults, drops and interrupt outcomes. Distinct = distinct op lines; every line is a concrete scenario.",
         false,
         serde_json::json!({"alphabet": ALPHABET, "depth": depth, "chips": chips}),
     );
